@@ -22,6 +22,7 @@ fn fmt_ids(s: &crate::exec::Snap) -> String { format!("{:?}", s.iter().map(|x| x
 fn follow_up<T: Elem + SatisfyTraits<Tr>, Tr: TrX + ?Sized, MT: MX>(x: &mut AnyVec<Tr, MT>, mx: &mut Vec<Mv>, then: u8, out: &mut Out) {
     let cap = x.capacity();
     let full = !MT::RESIZABLE && mx.len() >= cap;
+    mx.reserve(4); // harness allocations stay outside the library window
     let r = guarded(|| match then {
         1 => { if !full { let v = T::fresh(); mx.push(Mv::Id(v.id())); x.downcast_mut::<T>().unwrap().push(v); } }
         2 => { if !full { let v = T::fresh(); mx.push(Mv::Id(v.id())); x.push(AnyValueWrapper::new(v)); } }
@@ -51,7 +52,7 @@ fn exercise_empty<T: Elem + SatisfyTraits<Tr>, Tr: TrX + ?Sized, MS: MX, MT: MX>
     if e.element_layout() != Layout::new::<T>() { out.fail(Class::Type, "empty-clone-layout", format!("clone_empty* reports layout {:?}", e.element_layout())); }
     if e.downcast_ref::<T>().is_none() { out.fail(Class::Type, "empty-clone-downcast", "empty clone does not downcast to the element type".into()); return; }
     if let Some(c) = MT::fixed_cap(T::SIZE) { if e.capacity() != c { out.fail(Class::Cap, "empty-clone-capacity", format!("capacity {} on {} (want {c})", e.capacity(), MT::name())); } }
-    let mut me: Vec<Mv> = Vec::new();
+    let mut me: Vec<Mv> = Vec::with_capacity(16);
     let room = |me: &Vec<Mv>, e: &AnyVec<Tr, MT>| MT::RESIZABLE || me.len() < e.capacity();
     // accepts values (erased + typed), lazy clones of the source's elements
     let r = guarded(|| {
